@@ -2403,6 +2403,56 @@ void coarse_equality_scalars()
   }
 }
 
+// ---- vector (+ - *) dim with DIFFERENT value types: per component in the usual arithmetic conversion of the two types
+// (a dim of unsigned subtracted from a vector of long is long arithmetic - the dim is not negated in its own type first)
+template <class A, class B>
+void vector_dim_mixed(char const *an, char const *bn)
+{
+  std::string const e = std::string("vector<") + an + ",3> op dim<" + bn + ",3>";
+  if (!vf::entry_enabled(e))
+    return;
+  vf::set_entry(e);
+  using V = fm::vector::static_<A, 3>;
+  using D = fm::dim::static_<B, 3>;
+  using R = decltype(std::declval<A>() - std::declval<B>());
+  std::uint64_t const n = vf::tier<std::uint64_t>(300, 30000);
+  for (std::uint64_t i = 0; i < n; ++i)
+  {
+    if (!vf::mine(i))
+      continue;
+    vf::rng g(vf::seed_for(e, i));
+    std::array<A, 3> a{};
+    std::array<B, 3> b{};
+    for (std::size_t k = 0; k < 3; ++k)
+    {
+      a[k] = static_cast<A>(g.range(std::is_signed_v<A> ? -40 : 50, 90));
+      b[k] = static_cast<B>(g.range(std::is_signed_v<B> ? -9 : 0, 40));
+    }
+    if (!vf::begin_case("i=%llu a=(%lld,%lld,%lld) b=(%lld,%lld,%lld)", static_cast<unsigned long long>(i), static_cast<ll>(a[0]), static_cast<ll>(a[1]), static_cast<ll>(a[2]),
+                        static_cast<ll>(b[0]), static_cast<ll>(b[1]), static_cast<ll>(b[2])))
+      continue;
+    vf::sample_case(1);
+    vf::note_distinct(vf::hash_mix(vf::hash_str(e), vf::hash_mix(vf::hash_bytes(a.data(), sizeof a), vf::hash_bytes(b.data(), sizeof b))));
+    V const v(a[0], a[1], a[2]);
+    D const d(b[0], b[1], b[2]);
+    auto const sum = v + d;
+    auto const dif = v - d;
+    auto const pro = v * d;
+    static_assert(std::is_same_v<typename decltype(dif)::value_type, R>, "element type of vector - dim");
+    for (std::size_t k = 0; k < 3; ++k)
+    {
+      VF_COUNT("vector-dim-mixed/components");
+      if (sum.get_unsafe(k) != static_cast<R>(a[k] + b[k]))
+        vf::violation(std::string("vector::operator+(vector,dim)<") + an + "," + bn + ">/value", "mismatch", vf::current_case());
+      if (dif.get_unsafe(k) != static_cast<R>(a[k] - b[k]))
+        vf::violation(std::string("vector::operator-(vector,dim)<") + an + "," + bn + ">/value", "mismatch",
+                      std::string(vf::current_case()) + " component " + std::to_string(k) + " got " + std::to_string(dif.get_unsafe(k)) + " want " + std::to_string(static_cast<R>(a[k] - b[k])));
+      if (pro.get_unsafe(k) != static_cast<R>(a[k] * b[k]))
+        vf::violation(std::string("vector::operator*(vector,dim)<") + an + "," + bn + ">/value", "mismatch", vf::current_case());
+    }
+  }
+}
+
 // ---- rectangular shapes: identity (ones exactly where row == column), null, fill, init, transpose, products between
 // compatible shapes, matrix * vector, comparison - against plain arrays.  Tall, wide, one column, one row.
 template <std::size_t R, std::size_t C>
@@ -2513,6 +2563,10 @@ void vf_slice_10()
   rect_shapes<long>();
   noncommutative_scalars();
   coarse_equality_scalars();
+  vector_dim_mixed<long, unsigned>("long", "unsigned");
+  vector_dim_mixed<std::size_t, unsigned>("size_t", "unsigned");
+  vector_dim_mixed<int, short>("int", "short");
+  vector_dim_mixed<long, int>("long", "int");
   vf::count("heavy/constructed", vf::heavy_stats().constructed);
   vf::count("heavy/moved", vf::heavy_stats().moved);
   vf::count("heavy/moved-from-reads(observed)", vf::heavy_stats().moved_from_reads);
